@@ -142,11 +142,23 @@ class Harness(object):
             kwargs = {"app_id": app_id, "wait": wait, "use_count": case["use_count"], "app_start_delay": 0}
             if case["n_tries"] is not None:
                 kwargs["n_tries"] = case["n_tries"]
-            if len(amap) == 1 and case.get("two_arg"):
-                (path, targets), = amap.items()
-                mc.load_application(path, targets, **kwargs)
-            else:
-                mc.load_application(amap, **kwargs)
+            # how the contextual arguments reach the call rotates: all explicit / explicit inside a block whose values they must
+            # beat (the block says the opposite `wait` and another application) / left to an enclosing block
+            self.styles = getattr(self, "styles", 0) + 1
+            style = self.styles % 3
+            import contextlib
+            block = contextlib.nullcontext()
+            if style == 1:
+                block = mc(app_id=(app_id + 1) % 256 or 1, wait=not wait)
+            elif style == 2:
+                block = mc(app_id=app_id, wait=wait)
+                del kwargs["app_id"], kwargs["wait"]
+            with block:
+                if len(amap) == 1 and case.get("two_arg"):
+                    (path, targets), = amap.items()
+                    mc.load_application(path, targets, **kwargs)
+                else:
+                    mc.load_application(amap, **kwargs)
         except SpiNNakerLoadingError as e:
             raised = e
         except Exception as e:  # noqa
